@@ -15,6 +15,7 @@ import Driver.OpsConstruct
 import Driver.OpsRead
 import Driver.OpsConvert
 import Driver.OpsGeo
+import Driver.OpsDtRe
 
 open Lean DI DI.Codec
 
@@ -50,6 +51,9 @@ def dispatch (op : String) (a : Json) : Except String Json :=
   | some r => r
   | none =>
   match DI.Ops.geoOp op a with
+  | some r => r
+  | none =>
+  match DI.Ops.dtreOp op a with
   | some r => r
   | none => .error s!"unknown op {op}"
 
